@@ -1136,6 +1136,11 @@ def install(E):
         clo, args = argv[0], argv[1]
         if not isinstance(args, Tup):
             return NotImplemented
+        if isinstance(clo, Ref) and clo.cell not in mem:
+            # a capture-less closure is zero-sized: MIR never assigns the local it is borrowed from
+            mk = re.match(r'^<&?(?:mut )?(\{closure@[^}]*\}) as ', func)
+            if mk:
+                mem[clo.cell] = Clo(mk.group(1), [])
         return E.call_closure(clo, list(args.fs), guard, mem)
     reg(r' as (?:std::ops::|core::ops::)?Fn(?:Mut|Once)?<\(.*\)>>::call(?:_mut|_once)?$', h_fn_call)
 
